@@ -25,6 +25,8 @@ func checkC03(p *Prog, c *Check) {
 	c03SignerRange(p, c)
 	c03Middleware(p, c)
 	c03NoDistinct(p, c)
+	optionsAppliedFirst(p, c, "C03-R7b")
+	identitiesHashInputs(p, c, "C03-R9")
 }
 
 func c03Send(p *Prog, c *Check) {
@@ -224,18 +226,47 @@ func c03Wrappers(p *Prog, c *Check) {
 		c.Analysed(shortFn(fn))
 		fi := p.Info(fn)
 		n := 0
+		// the signing call: in the interceptor itself or in a helper of the package it delegates to
+		type signSite struct {
+			ci ssa.CallInstruction
+			v  view
+		}
+		root := view{fi, func(t *Term) *Term { return t }}
+		var sites []signSite
 		for _, ci := range callsTo(fn, "NewSlotDecryptionSignatureData") {
+			sites = append(sites, signSite{ci, root})
+		}
+		for _, blk := range fn.Blocks {
+			for _, in := range blk.Instrs {
+				hc, isCall := in.(*ssa.Call)
+				if !isCall {
+					continue
+				}
+				g := hc.Common().StaticCallee()
+				if g == nil || !inModule(g) || g.Blocks == nil || fnPkgPath(g) != fnPkgPath(fn) {
+					continue
+				}
+				g = origin(g)
+				for _, ci := range callsTo(g, "NewSlotDecryptionSignatureData") {
+					c.Analysed(shortFn(g))
+					sites = append(sites, signSite{ci, calleeView(p, root, hc)})
+				}
+			}
+		}
+		for _, st := range sites {
+			ci := st.ci
+			sfi := st.v.fi
 			n++
 			args := ci.Common().Args
 			b := Binds{"m": fi.T(fn.Params[2])}
-			slot, ptr := fi.T(args[2]), fi.T(args[3])
-			okEon := ParsePat("$m.Eon").Match(fi.T(args[1]), copyBinds(b))
+			slot, ptr := st.v.up(sfi.T(args[2])), st.v.up(sfi.T(args[3]))
+			okEon := ParsePat("$m.Eon").Match(st.v.up(sfi.T(args[1])), copyBinds(b))
 			okIDs := false
 			// append loop, make+fill loop or a helper returning either
-			if mv := fi.mapViewOf(p, fi.T(args[4]), 0); mv != nil {
+			if mv := sfi.mapViewOf(p, sfi.T(args[4]), 0); mv != nil {
 				mb := copyBinds(b)
 				mb["j"] = mv.Idx
-				okIDs = ParsePat("len($m.Shares)").Match(mv.Bound, mb) && ParsePat("$m.Shares[$j].IdentityPreimage").Match(mv.Elem, mb)
+				okIDs = ParsePat("len($m.Shares)").Match(st.v.up(mv.Bound), mb) && ParsePat("$m.Shares[$j].IdentityPreimage").Match(st.v.up(mv.Elem), mb)
 			}
 			// the attached extra literal
 			okExtra := false
@@ -246,8 +277,13 @@ func c03Wrappers(p *Prog, c *Check) {
 						continue
 					}
 					ef := fi.structLitFields(al)
-					if ef != nil && ef["Slot"] != nil && ef["TxPointer"] != nil && stripConv(ef["Slot"]).s == stripConv(slot).s && stripConv(ef["TxPointer"]).s == stripConv(ptr).s &&
-						ParsePat("ComputeSignature(NewSlotDecryptionSignatureData(...)#0, _)#0").Match(ef["Signature"], Binds{}) {
+					if ef == nil || ef["Slot"] == nil || ef["TxPointer"] == nil || ef["Signature"] == nil {
+						continue
+					}
+					_, okSig := p.resolvesTo(fi, ef["Signature"], func(t *Term) bool {
+						return ParsePat("ComputeSignature(NewSlotDecryptionSignatureData(...)#0, _)#0").Match(t, Binds{})
+					})
+					if stripConv(ef["Slot"]).s == stripConv(slot).s && stripConv(ef["TxPointer"]).s == stripConv(ptr).s && okSig {
 						okExtra = true
 					}
 				}
